@@ -87,6 +87,11 @@ ST = [
 ]
 
 
+# First operators of the depth-2 compositions that are compiled by default ("core" family); the other
+# first operators are compiled only with VF_EMB1_FAMILY=full (see emb/build.rs). Second operators: all.
+CORE_FIRST = ["map", "flat_map_ordered", "unique", "merge_unordered", "join", "filter_not_in"]
+
+
 def programs():
     """Yield (name, desc, body_lines, outkind, ref_expr, uses_b, uses_s, out_total, depth)."""
     out = []
@@ -144,25 +149,30 @@ def main():
     open(os.path.join(HERE, "progs/src/family.rs"), "w").write("\n".join(g))
 
     b = ["// @generated by gen.py -- do not edit by hand.",
-         "fn gen_all(out: &mut String) {"]
+         "fn gen_all(out: &mut String, sel: &Select) {"]
     for p in progs:
-        b.append(f"    gen_prog!(out, {p[0]}, vf_hydro_progs1::family::{p[0]});")
+        first = p[0][2:].split("__")[0]
+        core = p[8] <= 1 or first in CORE_FIRST
+        b.append(f"    gen_prog!(out, sel, {'true' if core else 'false'}, {p[0]}, vf_hydro_progs1::family::{p[0]});")
     b.append("}")
     open(os.path.join(HERE, "emb/gen_build.rs"), "w").write("\n".join(b) + "\n")
 
     t = ["// @generated by gen.py -- do not edit by hand.",
          "pub fn gen_table() -> Vec<Prog> {",
-         "    vec!["]
+         "    #[allow(unused_mut)]",
+         "    let mut v = Vec::new();"]
     for (name, desc, body, kind, ref, ub, us, ot, depth) in progs:
-        t.append("        Prog {")
-        t.append(f"            name: \"{name}\", desc: \"{desc}\", exec: exec_prog!({name}), out: OutKind::{kind},")
-        t.append(f"            uses_b: {str(ub).lower()}, uses_s: {str(us).lower()}, depth: {depth}, keyed_out: false,")
-        t.append(f"            reference: Some(|a: &[E], b: &[E], s: i32| {{ let _ = (b, s); {ref} }}),")
-        t.append("        },")
-    t.append("    ]")
+        t.append(f"    #[cfg({name})]")
+        t.append("    v.push(Prog {")
+        t.append(f"        name: \"{name}\", desc: \"{desc}\", exec: exec_prog!({name}), out: OutKind::{kind},")
+        t.append(f"        uses_b: {str(ub).lower()}, uses_s: {str(us).lower()}, depth: {depth}, keyed_out: false,")
+        t.append(f"        reference: Some(|a: &[E], b: &[E], s: i32| {{ let _ = (b, s); {ref} }}),")
+        t.append("    });")
+    t.append("    v")
     t.append("}")
     open(os.path.join(HERE, "emb/src/gen_table.rs"), "w").write("\n".join(t) + "\n")
-    print(len(progs), "programs;",
+    print(sum(1 for p in progs if p[8] <= 1 or p[0][2:].split("__")[0] in CORE_FIRST), "core of",
+          len(progs), "programs;",
           sum(1 for p in progs if p[8] == 1), "depth-1,",
           sum(1 for p in progs if p[8] == 2), "depth-2,",
           sum(1 for p in progs if p[5]), "use b,", sum(1 for p in progs if p[6]), "use s,",
